@@ -295,11 +295,30 @@ fn point_case(ctx: &mut Ctx, wl: &str, case: u64, rng: &mut Rng) {
     } else {
         None
     };
+    // a fifth of the generalised power cones with a w block of two or more entries get a primal point whose w block
+    // mixes exact zeros with non-zeros (still interior: |w| only shrinks); the decision comes from a side stream so
+    // that the main stream of draws is what it was before this variation existed
+    let mut sparse_w = false;
+    if let (None, K::Gen(a, d2)) = (&central_mu, &k) {
+        let mut r2 = Rng::for_case(ctx.seed, "C14/points/sparse_w", case);
+        if *d2 >= 2 && r2.bool(0.2) {
+            let keep = r2.usize(0, *d2 - 1);
+            for i in 0..*d2 {
+                if i != keep && (r2.bool(0.6) || *d2 == 2) {
+                    s[a.len() + i] = 0.0;
+                    sparse_w = true;
+                }
+            }
+        }
+    }
     let (mz, scz) = vc::margin(&ct, &z, true);
     let (ms, scs) = vc::margin(&ct, &s, false);
     let (rz, rs) = (mz / scz, ms / scs);
     if !(rz > 1e-9 && rs > 1e-9) {
         return;
+    }
+    if sparse_w {
+        ctx.bump("genpow_points_with_zeros_inside_a_nonzero_w_block");
     }
     ctx.bump(&format!("kind_{}", k.name()));
     ctx.bump(if rz > 1e-3 && rs > 1e-3 { "points_well_inside" } else { "points_near_boundary" });
